@@ -708,7 +708,7 @@ Proof.
   - destruct (f_params f) as [|p [|]]; try (left; eauto; fail).
     destruct args as [|a [|]]; try (left; eauto; fail).
     destruct (boxed_cast R E _ a); [| left; eauto ].
-    destruct (r_isnull r); [left|right]; eauto.
+    destruct (r_isnull r); [destruct (r_attr_nullcheck R); left | right]; eauto.
 Qed.
 
 Definition call_args_ok (E : env) (f : func) (args args' : list box) : Prop :=
@@ -752,7 +752,7 @@ Proof.
     destruct (f_params f) as [|p [|]] eqn:Eps; try discriminate.
     destruct args' as [|a' [|]] eqn:Ea; try discriminate.
     destruct (boxed_cast R E (mkparam (p_ti p) (if b_const a' then FCPtr else FPtr) 0) a') as [r|e] eqn:Ec; try discriminate.
-    destruct (r_isnull r) eqn:En; try discriminate. injection H as <-.
+    destruct (r_isnull r) eqn:En; [destruct (r_attr_nullcheck R); discriminate|]. injection H as <-.
     cbn [forallb] in *. bool_hyps.
     assert (Hsame : args = [a']).
     { destruct Hargs as [[_ Hca]|[Hv _]].
@@ -1201,4 +1201,37 @@ Proof.
     + rewrite Hac, H1, H2. cbn. auto.
     + unfold call_one. rewrite Hac, H1, H2. cbn. auto.
   - destruct (r_arity_check R && _ && _); cbn; [auto | rewrite Hd; cbn; auto].
+Qed.
+
+(* ---------------------------------------------------------------------------------------------- *)
+(** * A data member is never read through a null object *)
+
+Theorem attr_null_no_entry :
+  forall R E f a, rules_ok R = true -> func_wf f = true -> f_kind f = KAttr -> b_null a = true ->
+    o_trace (call_one R E f [a]) = []
+    /\ (o_res (call_one R E f [a]) = Some ENull \/ o_res (call_one R E f [a]) = Some EArity
+        \/ exists p e, f_params f = [p] /\ boxed_cast R E (mkparam (p_ti p) (if b_const a then FCPtr else FPtr) 0) a = CErr e
+                       /\ o_res (call_one R E f [a]) = Some e).
+Proof.
+  intros R E f a HR Hwf Hk Hn. unfold call_one. rewrite Hk.
+  destruct (r_arity_check R && negb (f_arity f <? 0)%Z && negb (f_arity f =? Z.of_nat (length [a]))%Z); [cbn; auto|].
+  unfold func_wf in Hwf. rewrite Hk in Hwf. bool_hyps.
+  assert (Har : f_arity f = 1%Z) by (apply Z.eqb_eq; assumption).
+  assert (Hlen : Z.of_nat (length (f_params f)) = 1%Z).
+  { match goal with H : _ || _ = true |- _ => apply orb_true_iff in H; destruct H as [H|H] end.
+    - apply Z.ltb_lt in H. lia.
+    - apply Z.eqb_eq in H. lia. }
+  destruct (f_params f) as [|p [|q ps]] eqn:Eps; cbn [length] in Hlen; try lia.
+  destruct (boxed_cast R E (mkparam (p_ti p) (if b_const a then FCPtr else FPtr) 0) a) as [r|e] eqn:Ec.
+  - assert (Hnull : r_isnull r = true).
+    { unfold boxed_cast in Ec. apply boxed_cast_cases in Ec; auto. destruct Ec as [Hd|(b' & Him & _)].
+      - unfold direct_ok in Hd. cbn [p_form] in Hd.
+        assert (Hs : self_ok (if b_const a then FCPtr else FPtr) (p_bare (mkparam (p_ti p) (if b_const a then FCPtr else FPtr) 0)) a r = true)
+          by (destruct (b_const a); exact Hd).
+        apply self_ok_facts in Hs. destruct Hs as (_ & _ & _ & _ & _ & _ & _ & Hi & _). rewrite Hi, Hn. destruct (b_const a); reflexivity.
+      - destruct Him as (_ & Hnn & _). congruence. }
+    rewrite Hnull.
+    assert (Hnc : r_attr_nullcheck R = true) by (unfold rules_ok in HR; bool_hyps; auto).
+    rewrite Hnc. cbn. auto.
+  - cbn. split; auto. right. right. exists p, e. auto.
 Qed.
